@@ -42,6 +42,9 @@ type callee struct {
 	closure *Closure
 	dynKey  string
 	sig     *types.Signature
+	anchored bool
+	short    string
+	ord      int
 }
 
 func (x *Exec) resolveCallee(st *State, call *ast.CallExpr) *callee {
@@ -282,6 +285,13 @@ func (x *Exec) dispatch(st *State, call *ast.CallExpr, c *callee, recv *T, args 
 			return res
 		}
 	}
+	if (c.name != "" || c.dynKey != "") && !x.prog.isLogCall(c.fn) {
+		fb := c.name
+		if fb == "" {
+			fb = c.dynKey
+		}
+		x.callAnchor(st, c, call, fb)
+	}
 	// 2. built-in library models
 	if c.fn != nil {
 		if res, ok := x.libraryModel(st, call, c, recv, args); ok {
@@ -371,25 +381,10 @@ func (x *Exec) applyContract(st *State, ct *Contract, c *callee, recv *T, args [
 	if c.fn != nil {
 		sig = c.fn.Type().(*types.Signature)
 	}
-	short := calleeShort(ct.Pkg + "." + ct.Key)
-	if c.name != "" {
-		short = calleeShort(c.name)
-	} else if c.dynKey != "" {
-		short = calleeShort(c.dynKey)
-	}
-	ord := x.callOrdinal(short)
+	short, ord := x.callAnchor(st, c, call, ct.Pkg+"."+ct.Key)
+	anchor := fmt.Sprintf("call:%s@%d", short, ord)
 	env := x.calleeEnv(st, ct, sig, recv, args)
 	x.prog.usedContracts[ct] = true
-	// caller-side asserts anchored at this call
-	anchor := fmt.Sprintf("call:%s@%d", short, ord)
-	if top := x.topFrame().contract; top != nil {
-		all := append(append([]*Clause(nil), top.Asserts[anchor]...), top.Asserts["call:"+short]...)
-		for i, a := range all {
-			t := x.specEval(st, a.Expr, x.bodySpecEnv(st, call))
-			x.oblige(st, fmt.Sprintf("%s/assert#%d", anchor, i+1), "assert", t.S, call)
-			st.assume(t.S)
-		}
-	}
 	for i, r := range ct.Requires {
 		t := x.specEval(st, r.Expr, env)
 		nm := fmt.Sprintf("%s/pre#%d", anchor, i+1)
@@ -1185,4 +1180,30 @@ func (x *Exec) recvModifies(u *ast.UnaryExpr, m *modSet) {
 			}
 		}
 	}
+}
+
+// callAnchor computes the stable short name and ordinal of a call site and
+// discharges the caller-side asserts anchored there (once per call).
+func (x *Exec) callAnchor(st *State, c *callee, call *ast.CallExpr, fallback string) (string, int) {
+	if c.anchored {
+		return c.short, c.ord
+	}
+	short := calleeShort(fallback)
+	if c.name != "" {
+		short = calleeShort(c.name)
+	} else if c.dynKey != "" {
+		short = calleeShort(c.dynKey)
+	}
+	ord := x.callOrdinal(short)
+	c.anchored, c.short, c.ord = true, short, ord
+	anchor := fmt.Sprintf("call:%s@%d", short, ord)
+	if top := x.topFrame().contract; top != nil {
+		all := append(append([]*Clause(nil), top.Asserts[anchor]...), top.Asserts["call:"+short]...)
+		for i, a := range all {
+			t := x.specEval(st, a.Expr, x.bodySpecEnv(st, call))
+			x.oblige(st, fmt.Sprintf("%s/assert#%d", anchor, i+1), "assert", t.S, call)
+			st.assume(t.S)
+		}
+	}
+	return short, ord
 }
